@@ -359,7 +359,13 @@ func newUniverse(r *core.R) *universe {
 		add(e)
 	}
 	// ---- policies
+	crowded := src.Chance(350, "pol_crowded")
+	crowdTier := []string{"default", "ta", "t-missing"}[src.Intn(3, "pol_crowd_tier")]
+	crowdOrder := src.Intn(len(orders), "pol_crowd_order")
 	nPol := src.Range(1, 7, "n_policies")
+	if crowded && nPol < 4 {
+		nPol = 4 + src.Intn(4, "n_policies_crowded")
+	}
 	kinds := []string{v3.KindGlobalNetworkPolicy, v3.KindNetworkPolicy, v3.KindStagedGlobalNetworkPolicy, v3.KindGlobalNetworkPolicy}
 	for i := 0; i < nPol; i++ {
 		kind := kinds[src.Intn(len(kinds), "pol_kind")]
@@ -381,6 +387,14 @@ func newUniverse(r *core.R) *universe {
 		for v := 0; v < nvar(); v++ {
 			ps := polSpec{tier: []string{"default", "default", "ta", "tb", "t-missing"}[src.Intn(5, "pol_tier")], order: orders[src.Intn(len(orders), "pol_order")],
 				selector: selectorChoices[src.Intn(len(selectorChoices), "pol_sel")], in: genRules(src, 2), out: genRules(src, 2)}
+			if crowded {
+				// many policies in one tier with one order: their relative position is decided by the name tie-break alone
+				ps.tier = crowdTier
+				ps.order = orders[crowdOrder]
+				if src.Chance(500, "pol_crowd_all") {
+					ps.selector = "all()"
+				}
+			}
 			switch src.Intn(6, "pol_types") {
 			case 0:
 				ps.types = []string{"ingress"}
